@@ -70,6 +70,8 @@ fn scenario(pr: &Params) -> Verdict {
         crate::alloc::mark();
         let mut broken = false;
         for (i, m) in msgs2.iter().enumerate() {
+            // time passes between two publishes: reader tasks and everything else may run here
+            world::yield_now().await;
             let mode = if broken { 3 } else { modes[i] };
             if mode == 3 {
                 broken = true;
